@@ -1406,15 +1406,21 @@ func (c *compiler) VisitBinaryExpr(e *ast.BinaryExpr) ast.VisitResult {
 		log10_base := c.cbb.NewCall(c.functions["log10"].irFunc, rhs)
 		c.latestReturn = c.cbb.NewFDiv(log10_num, log10_base)
 		c.latestReturnType = c.ddpfloattyp
-	case ast.BIN_LOGIC_AND:
-		c.latestReturn = c.cbb.NewAnd(lhs, rhs)
-		c.latestReturnType = c.ddpinttyp
-	case ast.BIN_LOGIC_OR:
-		c.latestReturn = c.cbb.NewOr(lhs, rhs)
-		c.latestReturnType = c.ddpinttyp
-	case ast.BIN_LOGIC_XOR:
-		c.latestReturn = c.cbb.NewXor(lhs, rhs)
-		c.latestReturnType = c.ddpinttyp
+	case ast.BIN_LOGIC_AND, ast.BIN_LOGIC_OR, ast.BIN_LOGIC_XOR:
+		// Byte op Byte is a Byte, as soon as a Zahl is involved the result is a Zahl (see the typechecker)
+		c.latestReturnType = c.ddpbytetyp
+		if lhsTyp != c.ddpbytetyp || rhsTyp != c.ddpbytetyp {
+			lhs, rhs = c.floatOrByteAsInt(lhs, lhsTyp), c.floatOrByteAsInt(rhs, rhsTyp)
+			c.latestReturnType = c.ddpinttyp
+		}
+		switch e.Operator {
+		case ast.BIN_LOGIC_AND:
+			c.latestReturn = c.cbb.NewAnd(lhs, rhs)
+		case ast.BIN_LOGIC_OR:
+			c.latestReturn = c.cbb.NewOr(lhs, rhs)
+		case ast.BIN_LOGIC_XOR:
+			c.latestReturn = c.cbb.NewXor(lhs, rhs)
+		}
 	case ast.BIN_MOD:
 		if lhsTyp == c.ddpbytetyp && rhsTyp == c.ddpbytetyp {
 			c.latestReturn = c.cbb.NewURem(lhs, rhs)
@@ -1423,12 +1429,18 @@ func (c *compiler) VisitBinaryExpr(e *ast.BinaryExpr) ast.VisitResult {
 			c.latestReturn = c.cbb.NewSRem(c.floatOrByteAsInt(lhs, lhsTyp), c.floatOrByteAsInt(rhs, rhsTyp))
 			c.latestReturnType = c.ddpinttyp
 		}
-	case ast.BIN_LEFT_SHIFT:
-		c.latestReturn = c.cbb.NewShl(lhs, rhs)
-		c.latestReturnType = c.ddpinttyp
-		c.latestReturnType = lhsTyp
-	case ast.BIN_RIGHT_SHIFT:
-		c.latestReturn = c.cbb.NewLShr(lhs, rhs)
+	case ast.BIN_LEFT_SHIFT, ast.BIN_RIGHT_SHIFT:
+		// the result has the type of the left operand, the shift amount is brought to its width
+		if lhsTyp == c.ddpinttyp && rhsTyp == c.ddpbytetyp {
+			rhs = c.cbb.NewZExt(rhs, ddpint)
+		} else if lhsTyp == c.ddpbytetyp && rhsTyp == c.ddpinttyp {
+			rhs = c.cbb.NewTrunc(rhs, ddpbyte)
+		}
+		if e.Operator == ast.BIN_LEFT_SHIFT {
+			c.latestReturn = c.cbb.NewShl(lhs, rhs)
+		} else {
+			c.latestReturn = c.cbb.NewLShr(lhs, rhs)
+		}
 		c.latestReturnType = lhsTyp
 	case ast.BIN_EQUAL:
 		c.compare_values(lhs, rhs, lhsTyp)
